@@ -54,6 +54,10 @@ fn make_plan<T: Flt>(rng: &mut Rng, x: &[T], out_of_range: bool) -> Plan<T> {
     for (kind, shape) in shapes {
         let n: usize = shape.iter().product();
         let mut vals: Vec<T> = (0..n).map(|_| rand_in(rng, lo, hi)).collect();
+        // every fourth query sits exactly on a knot
+        for k in (0..n).step_by(4) {
+            vals[k] = x[rng.below(x.len())];
+        }
         if out_of_range && n > 2 && rng.chance(0.2) {
             let k = rng.below(n);
             vals[k] = lo.down();
@@ -206,6 +210,11 @@ fn case1<T: Elem>(case: u64, args: &Args, ev: &mut Ev) {
         let max_n = if case % 8 == 2 { 40 } else { 9 };
         gen_linear_case::<T>(&mut rng, &LinearOpts { max_n, max_lane_rank: 3, allow_cluster: false, ..Default::default() })
     };
+    if !spline && !spec.broadcast_lanes && case % 5 == 2 {
+        let k = sprinkle_specials(&mut rng, &mut spec.data);
+        ev.add("special_data_samples", k as u64);
+    }
+    spec.broadcast_lanes = false;
     // baseline: everything owned and in C order
     spec.data_lay = Layout::c(spec.data.ndim());
     spec.x_lay = Layout::c(1);
